@@ -119,13 +119,15 @@ static void block(uint32_t first) {
         {
             std::string d = "[ \"x";
             put_escape(d, cp, (cp & 1) != 0);
-            d += "y\\t";
+            const char hexch = "0123456789abcdefABCDEF"[cp % 22]; // a literal hex digit directly after the escape
+            d += hexch;
+            d += "\\t";
             put_escape(d, cp, (cp & 1) == 0);
             d += "\\\\z\" ]";
             std::vector<Char_T> e2;
             e2.push_back(Char_T('x'));
             e2.insert(e2.end(), exp.begin(), exp.end());
-            e2.push_back(Char_T('y'));
+            e2.push_back(Char_T(hexch));
             e2.push_back(Char_T('\t'));
             e2.insert(e2.end(), exp.begin(), exp.end());
             e2.push_back(Char_T('\\'));
